@@ -1,5 +1,23 @@
-from checks import apifam
+from checks import apifam, concfam
 GUARDS = {"OwnershipQuery", "DefaultFallsBack", "SetDefaultReturnsOld", "BackingHeap", "DestroyOfLiveHeap", "DeleteOfLiveHeap",
-          "ContentsKept.gen", "ContentsKept.bytes", "ObsOfLiveBlock", "NoOverlap", "FreeOfLiveBlock", "CheckAllComplete"}
+          "ContentsKept.gen", "ContentsKept.bytes", "ObsOfLiveBlock", "NoOverlap", "FreeOfLiveBlock", "CheckAllComplete", "QuiescentClean",
+          "WalkCount", "WalkEveryLiveOnce", "WalkOnlyLive"}
 def run(tier, seed):
-    return apifam.run_api("C10", tier, seed, profiles=["c10"], builds=["rel", "dbg", "sec"], own_guards=GUARDS, crash_decisive=True, gen=(24, 200))
+    # sequential part: heap programs (native + TLC-generated) against MiApi
+    V, cov = apifam.run_api("C10", tier, seed, profiles=["c10"], builds=["rel", "dbg", "sec"], own_guards=GUARDS, crash_decisive=True, gen=(24, 200), finish=False)
+    # concurrent part: mi_heap_delete / mi_heap_collect racing with remote frees into that heap, under the deterministic scheduler
+    jobs = [
+        {"prog": "page-delete", "strategy": "random", "runs": (250, 3000), "args": ["--spurious", "2", "--rate", "3"]},
+        {"prog": "page-delete", "strategy": "pct", "runs": (150, 2000), "args": ["--spurious", "1"]},
+        {"prog": "page-collect", "strategy": "random", "runs": (150, 2000), "args": ["--spurious", "2", "--rate", "2"]},
+        {"prog": "page-delete", "strategy": "random", "runs": (100, 1500), "args": ["--size", "60000", "65536", "--spurious", "1"]},
+    ]
+    V, cov2 = concfam.run_conc("C10", tier, seed, jobs, GUARDS, mc=("MiPage", ("MiPage_mc.cfg", "MiPage_mc_thorough.cfg")), guided_progs=("page-delete",),
+                               V=V, finish=False)
+    cov["concurrent"] = {k: cov2[k] for k in ("states", "transitions", "mc_module", "mc_config", "traces_validated_against_impl", "trace_events_validated",
+                                              "schedules_generated_by_tlc", "programs", "strategies")}
+    cov["traces_validated_against_impl"] += cov2["traces_validated_against_impl"]
+    cov["samples"] = cov["samples"] + cov2["samples"][:2]
+    return V.finish("model_checking", cov, assumptions=[
+        "sequential part: bounded MiApiMC + native/TLC-generated heap programs; concurrent part: MiPage protocol model (heap delete itself is exercised in the implementation runs; the model covers the delayed-free handshake it relies on)",
+        "SC interleavings at mi_atomic-macro granularity; TLC and harness measurements trusted"])
